@@ -54,6 +54,19 @@ Definition f2i64_amd64 (t : Z) : Z := if (- H64 <=? t) && (t <? H64) then t else
 Definition f2i32_amd64 (t : Z) : Z := if (- H32 <=? t) && (t <? H32) then wrap t else H32.
 Definition f2u32_amd64 (t : Z) : Z := wrap (f2i64_amd64 t).
 
+(* float64(v) for an int64 v, as an integer (the result of the conversion is always an
+   integer): round to nearest, ties to even, at 53 significant bits *)
+Definition round_to_f64 (v : Z) : Z :=
+  let a := Z.abs v in
+  if a <? 9007199254740992 then v
+  else
+    let k := Z.log2 a - 52 in
+    let q := Z.shiftr a k in
+    let r := a - Z.shiftl q k in
+    let half := Z.shiftl 1 (k - 1) in
+    let q' := if (half <? r) || ((r =? half) && Z.odd q) then q + 1 else q in
+    Z.sgn v * Z.shiftl q' k.
+
 (* uint32 arithmetic (evalConstU32Expr) on bit patterns *)
 Definition addu32 a b := wrap (a + b).
 Definition subu32 a b := wrap (a - b).
